@@ -87,15 +87,26 @@ def run_units(units, timeout=1500):
             env = dict(os.environ)
             env['CARGO_TARGET_DIR'] = TARGET
             env['CARGO_NET_OFFLINE'] = 'true'
-            tests = sorted(set(h['test'] for h in wanted.values()))
-            cmd = ['cargo', 'test', '--offline', '--lib', '--'] + tests + ['--nocapture', '--test-threads', '8']
-            try:
-                p = subprocess.run(cmd, cwd=WORK, env=env, capture_output=True, text=True, timeout=timeout)
-                stdout, stderr, rc = p.stdout, p.stderr, p.returncode
-            except subprocess.TimeoutExpired as e:
-                stdout, stderr, rc = (e.stdout or ''), 'timeout', -1
-                if isinstance(stdout, bytes):
-                    stdout = stdout.decode('utf-8', 'replace')
+            # harnesses of the library target and of the binary target (src/main.rs) need separate runs
+            lib_tests = sorted(set(h['test'] for h in wanted.values() if not h.get('file', '').endswith('main.rs')))
+            bin_tests = sorted(set(h['test'] for h in wanted.values() if h.get('file', '').endswith('main.rs')))
+            stdout, stderr, rc, cmds = '', '', 0, []
+            for kind, tests in (('--lib', lib_tests), ('--bin', bin_tests)):
+                if not tests:
+                    continue
+                cmd = ['cargo', 'test', '--offline'] + ([kind] if kind == '--lib' else ['--bin', 'blockwatch']) + ['--'] + tests + ['--nocapture', '--test-threads', '8']
+                cmds.append(' '.join(cmd))
+                try:
+                    p = subprocess.run(cmd, cwd=WORK, env=env, capture_output=True, text=True, timeout=timeout)
+                    stdout += p.stdout
+                    stderr += p.stderr
+                    rc = rc or p.returncode
+                except subprocess.TimeoutExpired as e:
+                    so = e.stdout or ''
+                    stdout += so.decode('utf-8', 'replace') if isinstance(so, bytes) else so
+                    stderr += 'timeout'
+                    rc = -1
+            cmd = ['(in a scratch copy of the working tree with /verif/cex/*.rs appended)'] + cmds
             seen = set()
             for line in stdout.splitlines():
                 line = line.strip()
